@@ -98,17 +98,6 @@ theorem filterMap_lookupRow (L : List (Nat × Row)) (s d : Nat)
     have : ¬ e.1 = r := by omega
     simp [this]
 
-theorem le_foldl_max (l : List Nat) (a : Nat) : a ≤ l.foldl max a ∧ ∀ x ∈ l, x ≤ l.foldl max a := by
-  induction l generalizing a with
-  | nil => simp
-  | cons y ys ih =>
-    simp only [List.foldl_cons, List.mem_cons]
-    obtain ⟨h1, h2⟩ := ih (max a y)
-    refine ⟨by omega, ?_⟩
-    rintro x (rfl | hx)
-    · omega
-    · exact h2 x hx
-
 theorem colEntries_fst_subset (rs rf : List Nat) (vals : List Row) (j : Nat) :
     ∀ r ∈ (colEntries ((rs.zip rf).zip vals) j).map Prod.fst, r ∈ rs := by
   intro r hr
@@ -144,6 +133,66 @@ theorem column_filterMap (rf rs : List Nat) (vals : List Row) (j : Nat)
   rw [List.filterMap_map, ← h2, hd, List.range_eq_range']
   simpa using filterMap_lookupRow L 0 d h1'
 
+/-! ## the matrix as a partial map -/
+
+theorem matGet_eq_lookupRow (m : Mat) (r j : Nat) : matGet m r j = lookupRow (colEntries m j) r := by
+  induction m with
+  | nil => rfl
+  | cons e m ih =>
+    obtain ⟨⟨r', c'⟩, v⟩ := e
+    rw [colEntries_cons]
+    by_cases hc : c' = j
+    · subst hc
+      simp only [matGet, if_true, lookupRow, and_true, ih]
+    · simp only [matGet, hc, and_false, if_false, ih]
+
+theorem lookupRow_eq_getElem? (L : List (Nat × Row)) (s r : Nat)
+    (h : L.map Prod.fst = List.range' s L.length) :
+    lookupRow L r = if s ≤ r then (L.map Prod.snd)[r - s]? else none := by
+  induction L generalizing s with
+  | nil => simp [lookupRow]
+  | cons e L ih =>
+    simp only [List.map_cons, List.length_cons, List.range'_succ, List.cons.injEq] at h
+    obtain ⟨h1, h2⟩ := h
+    unfold lookupRow
+    by_cases he : e.1 = r
+    · subst he; simp [h1]
+    · simp only [he, if_false, ih (s + 1) h2]
+      by_cases hs : s ≤ r
+      · have : s + 1 ≤ r := by omega
+        have e2 : r - s = (r - (s + 1)) + 1 := by omega
+        simp only [this, hs, if_true, List.map_cons, e2, List.getElem?_cons_succ]
+      · have : ¬ s + 1 ≤ r := by omega
+        simp [this, hs]
+
+theorem colEntries_length_le (rf rs : List Nat) (vals : List Row) (j : Nat)
+    (h : rows rf = some rs) (hv : vals.length = rf.length) :
+    (colEntries ((rs.zip rf).zip vals) j).length ≤ rs.foldl max 0 + 1 := by
+  obtain ⟨h1, -⟩ := colEntries_rowsGo rf _ rs vals j h hv
+  set L := colEntries ((rs.zip rf).zip vals) j with hL
+  have hlen : L.length = rf.count j := by simpa using congrArg List.length h1
+  have h1' : L.map Prod.fst = List.range' 0 L.length := by
+    rw [h1, hlen]; congr 1
+    by_cases hj : j < rf.length <;> simp [hj]
+  rcases Nat.eq_zero_or_pos L.length with h0 | hpos
+  · omega
+  · have hm : L.length - 1 ∈ L.map Prod.fst := by
+      rw [h1']; exact List.mem_range'_1.mpr ⟨by omega, by omega⟩
+    have := (le_foldl_max rs 0).2 _ (colEntries_fst_subset rs rf vals j _ hm)
+    omega
+
+/-- the bin matrix as a partial map: slot `(r, j)` holds the `r`-th partner value of `j` -/
+theorem matGet_spec (rf rs : List Nat) (vals : List Row) (r j : Nat)
+    (h : rows rf = some rs) (hv : vals.length = rf.length) :
+    matGet ((rs.zip rf).zip vals) r j = (((rf.zip vals).filter (fun e => e.1 == j)).map Prod.snd)[r]? := by
+  obtain ⟨h1, h2⟩ := colEntries_rowsGo rf _ rs vals j h hv
+  set L := colEntries ((rs.zip rf).zip vals) j with hL
+  have hlen : L.length = rf.count j := by simpa using congrArg List.length h1
+  have h1' : L.map Prod.fst = List.range' 0 L.length := by
+    rw [h1, hlen]; congr 1
+    by_cases hj : j < rf.length <;> simp [hj]
+  rw [matGet_eq_lookupRow, ← hL, lookupRow_eq_getElem? L 0 r h1', h2]
+  simp
 /-! ## channels and statistics -/
 
 theorem filterMap_cellChan (col : List (Option Row)) (ch : Nat) :
